@@ -21,6 +21,11 @@ pub fn bool_expr() -> impl Strategy<Value = E> {
         2 => (cmp(), any::<bool>(), cmp()).prop_map(|(l, and, r)| E::Bin(Box::new(l), if and { Op::And } else { Op::Or }, Box::new(r))),
         1 => (0u8..4, 0u8..4, 1i64..9).prop_map(|(a, b, k)| E::Bin(Box::new(E::Bin(Box::new(E::Col(a)), Op::Add, Box::new(E::Col(b)))), Op::Gt, Box::new(E::Int(k)))),
         1 => (0u8..4).prop_map(|c| E::Bin(Box::new(E::Col(c)), Op::IsNot, Box::new(E::Null))),
+        // expressions whose text starts with `(` and ends with `)` without those two matching each other
+        1 => (cmp(), cmp(), cmp(), cmp()).prop_map(|(a, b, c, d)| {
+            E::Bin(Box::new(E::Bin(Box::new(a), Op::Or, Box::new(b))), Op::And, Box::new(E::Bin(Box::new(c), Op::Or, Box::new(d))))
+        }),
+        1 => (0u8..4, 0u8..4, proptest::collection::vec((0i64..9, 0i64..9), 1..3)).prop_map(|(a, b, rows)| E::InTuples(vec![E::Col(a), E::Col(b)], rows)),
     ]
 }
 
